@@ -182,6 +182,13 @@ fn main() {
     };
     // silence panic messages of the pipeline (reported as `err`); keep the default hook otherwise
     std::panic::set_hook(Box::new(|_| {}));
+    // Warm-up: dfir_lang keeps one lazily initialised global (the operator-name lookup table, a
+    // std HashMap behind a OnceLock).  Whichever compilation initialises it draws one extra
+    // `RandomState` on its thread, which shifts the keys of every later map of *that* compilation.
+    // Initialising it here, on a throw-away thread, makes the keys a compilation sees a function
+    // of (VERIF_HASH_SEED, program, repetition index) only -- independent of the position in a
+    // batch -- so that a single-program replay meets exactly the keys of the batch run.
+    let _ = compile_on_fresh_thread("source_iter(0..1) -> map(|x| x) -> for_each(|x| println!(\"{}\", x));", false);
     let mut out = String::new();
     let mut pipeline_runs = 0u64;
     for rec in text.split("@@@PROGRAM ").skip(1) {
